@@ -51,6 +51,9 @@ def plan(tier, seed):
     for s in range(nr):
         jobs.append({"variant": cv, "part": "random", "shard": s, "nshards": nr, "params": {"n": 60000 if thorough else 12000}})
     jobs.append({"variant": cv, "part": "ascii", "params": {}})
+    if thorough:
+        for s in range(16):
+            jobs.append({"variant": "c", "part": "allcp", "shard": s, "nshards": 16, "params": {}})
     nu = 8 if thorough else 2
     for s in range(nu):
         p = {"n": 20000 if thorough else 5000}
@@ -120,6 +123,8 @@ def run(ctx):
         run_kernel(ctx, pairs)
     elif part == "ascii":
         run_ascii(ctx, pairs)
+    elif part == "allcp":
+        run_allcp(ctx, pairs)
     elif part == "boundary":
         run_boundary(ctx, pairs)
     elif part == "random":
@@ -181,8 +186,12 @@ def run_ascii(ctx, pairs):
         for s in (a, "%" + a + a, "%4" + a, "%" + a + "1", "%E2%82%" + a + "C", "a" + a + "b", a + "41", "x%" + a + a + "y"):
             for p in pairs:
                 compare(ctx, p, s, "alias")
-    from ..gen import ascii_confusables
+    from ..gen import ascii_confusables, BOUNDARY_CHARS
 
+    for a in BOUNDARY_CHARS:
+        for s in (a, "a" + a + "b", "%" + a + "1", "%4" + a, a + a, " " + a):
+            for p in pairs:
+                compare(ctx, p, s, "edge")
     for a in ascii_confusables():
         for s in (a, "%" + a + a, "%4" + a, "%" + a + "1", "a" + a + " "):
             for p in pairs:
@@ -200,6 +209,21 @@ def run_ascii(ctx, pairs):
             ctx.count("cmp_" + name)
             if a != b or type(a) is not type(b):
                 ctx.fail("quoter_diff", {"config": name, "kind": kind, "kwargs": kw, "input": repr(val), "part": "types"}, f"py={a!r} c={b!r}")
+
+
+def run_allcp(ctx, pairs):
+    """Thorough: every Unicode code point (surrogates included) alone, after '%', and in the second hex position."""
+    n = 0
+    for cp in range(0x80, 0x110000):
+        if not ctx.mine(cp):
+            continue
+        c = chr(cp)
+        for s in (c, "%" + c + "1", "%4" + c):
+            for p in pairs:
+                compare(ctx, p, s, "allcp")
+        n += 1
+    ctx.notes["allcp"] = n
+    ctx.sample({"config": "<all>", "input": "%4\u0141"})
 
 
 TAILS = ["", "%", "%4", " ", "é", "€", "😀", "%c3%a9", "%41", "\udc80", "+", "%2"]
